@@ -60,6 +60,10 @@ func (pf *ZKProof) Verify(Session []byte, X *crypto.ECPoint) bool {
 	ecParams := ec.Params()
 	q := ecParams.N
 	g := crypto.NewECPointNoCurveCheck(ec, ecParams.Gx, ecParams.Gy)
+	// the response must be a non-zero scalar: t = 0 mod q has no representable t*G on some curves
+	if pf.T.Sign() <= 0 || pf.T.Cmp(q) >= 0 {
+		return false
+	}
 
 	var c *big.Int
 	{
@@ -114,6 +118,10 @@ func (pf *ZKVProof) Verify(Session []byte, V, R *crypto.ECPoint) bool {
 	ecParams := ec.Params()
 	q := ecParams.N
 	g := crypto.NewECPointNoCurveCheck(ec, ecParams.Gx, ecParams.Gy)
+	// the responses must be non-zero scalars: 0 mod q has no representable multiple on some curves
+	if pf.T.Sign() <= 0 || pf.T.Cmp(q) >= 0 || pf.U.Sign() <= 0 || pf.U.Cmp(q) >= 0 {
+		return false
+	}
 
 	var c *big.Int
 	{
@@ -122,7 +130,10 @@ func (pf *ZKVProof) Verify(Session []byte, V, R *crypto.ECPoint) bool {
 	}
 	tR := R.ScalarMult(pf.T)
 	uG := crypto.ScalarBaseMult(ec, pf.U)
-	tRuG, _ := tR.Add(uG) // already on the curve.
+	tRuG, err := tR.Add(uG)
+	if err != nil {
+		return false
+	}
 
 	Vc := V.ScalarMult(c)
 	aVc, err := pf.Alpha.Add(Vc)
